@@ -5,7 +5,11 @@ CONSTANTS Configs = {}
   SkipEpochWithoutRow = FALSE
   LoadEveryEngine = FALSE
   LoadOnlyOwnTargets = FALSE
+  CrashOnDuplicate = FALSE
+  KeepDuplicates = FALSE
+  CreateMissingTables = FALSE
 INVARIANT ImportFaithful
 INVARIANT NoStaleState
 INVARIANT ObsReachFilter
+INVARIANT RunContinues
 PROPERTY ImporterReadOnly
